@@ -81,10 +81,20 @@ type workerOut struct {
 	Undrainable int            `json:"undrainable"`
 	Samples     []sample       `json:"samples"`
 	Violations  []replayFile   `json:"violations"`
+	Unrepro     []unrepro      `json:"unreproduced"`
 	Real        []string       `json:"real"`
 	Stub        []string       `json:"stub"`
 	WallS       float64        `json:"wall_s"`
 	ExhaustN    int            `json:"exhaust_n"`
+}
+
+type unrepro struct {
+	Rule     string `json:"rule"`
+	Sig      string `json:"sig"`
+	RunIndex uint64 `json:"run_index"`
+	Racy     bool   `json:"racy"`
+	Msg      string `json:"msg"`
+	Attempts int    `json:"attempts"`
 }
 
 type propInfo struct {
@@ -360,6 +370,7 @@ func check(prop, tier string, seed uint64, runsOverride int, workers int) int {
 	hashes := map[uint64]struct{}{}
 	real, stub := map[string]bool{}, map[string]bool{}
 	var viols []replayFile
+	unrep := []unrepro{}
 	trouble := 0
 	for _, r := range results {
 		if r.out == nil {
@@ -420,6 +431,10 @@ func check(prop, tier string, seed uint64, runsOverride int, workers int) int {
 			}
 		}
 		viols = append(viols, o.Violations...)
+		unrep = append(unrep, o.Unrepro...)
+	}
+	for _, u := range unrep {
+		fmt.Printf("NOTE: not reported (fired once, did not fire again in %d immediate re-executions of the same tape; racy=%v): %s [%s] seed=%d run=%d %s\n", u.Attempts, u.Racy, u.Rule, u.Sig, seed, u.RunIndex, u.Msg)
 	}
 
 	// known findings
@@ -473,26 +488,27 @@ func check(prop, tier string, seed uint64, runsOverride int, workers int) int {
 	}
 	realL, stubL := keys(real), keys(stub)
 	cov := map[string]any{
-		"evaluations":         agg.Runs,
-		"distinct_nontrivial": len(hashes),
-		"rule":                pi.Rule,
-		"samples":             samples,
-		"nontrivial_runs":     agg.NonTrivial,
-		"scenarios":           agg.Scenarios,
-		"faults_fired":        agg.Faults,
-		"probes_hit":          agg.Probes,
-		"simulated_time_s":    float64(agg.SimTimeNs) / 1e9,
-		"phases":              agg.Phases,
-		"racy_runs":           agg.Racy,
-		"undrainable_runs":    agg.Undrainable,
-		"runs_per_hour":       float64(agg.Runs) / wall * 3600,
-		"workers":             workers,
-		"real_components":     realL,
-		"stub_components":     stubL,
-		"known_finding_hits":  knownHits,
-		"repo_tree":           tree,
-		"engine":              1,
-		"harness_trouble":     trouble,
+		"evaluations":            agg.Runs,
+		"distinct_nontrivial":    len(hashes),
+		"rule":                   pi.Rule,
+		"samples":                samples,
+		"nontrivial_runs":        agg.NonTrivial,
+		"scenarios":              agg.Scenarios,
+		"faults_fired":           agg.Faults,
+		"probes_hit":             agg.Probes,
+		"simulated_time_s":       float64(agg.SimTimeNs) / 1e9,
+		"phases":                 agg.Phases,
+		"racy_runs":              agg.Racy,
+		"undrainable_runs":       agg.Undrainable,
+		"runs_per_hour":          float64(agg.Runs) / wall * 3600,
+		"workers":                workers,
+		"real_components":        realL,
+		"stub_components":        stubL,
+		"known_finding_hits":     knownHits,
+		"repo_tree":              tree,
+		"engine":                 1,
+		"harness_trouble":        trouble,
+		"unreproduced_anomalies": unrep,
 	}
 	// reach self-check: the rare conditions this property's verdict rests on must actually have occurred;
 	// a probe or fault kind stuck at zero over a full-size batch means the workload has gone blind
